@@ -196,6 +196,25 @@ class Check(PropertyCheck):
             for what, a, b, want in pairs:
                 if (a == b) != want or (b == a) != want or (a != b) == want:
                     res.append(("eq-structure", f"instances ({what}): == is {a == b}, content equality is {want}"))
+            # operations that were hashed (used as dict keys / set members) BEFORE an instance gave them their labels, or that
+            # move on to a second instance which labels them anew: equal operations still hash equally
+            a0, a1 = jsl.Operation(0, 5), jsl.Operation(r.randrange(3), r.randint(1, 5))
+            seen = {a0: "x", a1: "y"}                  # hashed while unattached
+            inst_a = jsl.JobShopInstance([[jsl.Operation(1, 1)], [a0, a1]])
+            inst_b = jsl.JobShopInstance([[jsl.Operation(1, 1)], [jsl.Operation(0, 5), jsl.Operation(list(a1.machines), a1.duration)]])
+            for x, y in zip((o for job in inst_a.jobs for o in job), (o for job in inst_b.jobs for o in job)):
+                if x == y and hash(x) != hash(y):
+                    res.append(("hash", f"operation {x.operation_id} (hashed before it was attached to its instance) equals an "
+                                "independently built operation but hashes differently"))
+                if not (x == y):
+                    res.append(("eq-content", f"operation {x.operation_id}: independently built operations with the same content differ"))
+            inst_c = jsl.JobShopInstance([[a1, a0]])      # the same objects relabelled by a second instance
+            inst_d = jsl.JobShopInstance([[jsl.Operation(list(a1.machines), a1.duration), jsl.Operation(0, 5)]])
+            for x, y in zip(inst_c.jobs[0], inst_d.jobs[0]):
+                if x == y and hash(x) != hash(y):
+                    res.append(("hash", f"operation {x.operation_id} (relabelled by a second instance after it was hashed) equals an "
+                                "independently built operation but hashes differently"))
+            del seen
             # schedules of an instance without labels (every operation keeps the default ids): start times and machine
             # assignment are content all the same
             def raw_schedule(shift, swap):
